@@ -4,4 +4,6 @@ import "verif/harness/internal/p11x"
 
 func init() {
 	register("p11-smoke", p11x.Smoke)
+	register("p11-replay", p11x.Replay)
+	register("p11-concurrent", p11x.Concurrent)
 }
